@@ -792,6 +792,45 @@ fn rule_c16(ctx: &Ctx, out: &mut Vec<Violation>) {
             }
         }
     }
+    // C16.partial_ack: an abandoned Acknowledge is applied to all the deliveries it names or to none
+    // (judged on named deliveries that were certainly still leased when it was invoked and that no
+    // other request names: after the drain each of them was delivered again, or none was).
+    if m.drain_end.is_some() && cancel_plan {
+        for c in m.calls.values() {
+            if let (Req::Ack { sub, ack_ids }, Some(Outcome::Abandoned(_))) = (&c.req, &c.out) {
+                let inst = match m.unique_sub(sub) {
+                    Some(i) => i,
+                    None => continue,
+                };
+                if m.sub_delete_ever(sub) || ack_ids.len() < 2 {
+                    continue;
+                }
+                let named: HashSet<String> = ack_ids.iter().map(|a| crate::oracle::canon_ack(a)).collect();
+                let others_name_them = m.calls.values().any(|o| o.id != c.id && match &o.req {
+                    Req::Ack { sub: s, ack_ids } | Req::ModAck { sub: s, ack_ids, .. } => s == sub && o.client != 9000 && ack_ids.iter().any(|a| named.contains(&crate::oracle::canon_ack(a))),
+                    _ => false,
+                });
+                if others_name_them {
+                    continue;
+                }
+                let mut again = 0usize;
+                let mut total = 0usize;
+                for d in m.deliveries.iter().filter(|d| d.sub == *sub && named.contains(&crate::oracle::canon_ack(&d.recv.ack_id))) {
+                    if d.recv_t + inst.deadline_us() <= c.inv_t + crate::oracle::SLACK_US {
+                        continue; // its lease may have been over already
+                    }
+                    total += 1;
+                    let later = m.deliveries_by_key.get(&(sub.clone(), d.recv.msg_id.clone())).map(|l| l.iter().any(|&i| m.deliveries[i].recv_seq > d.recv_seq)).unwrap_or(false);
+                    if later {
+                        again += 1;
+                    }
+                }
+                if total >= 2 && again != 0 && again != total {
+                    out.push(v("C16.partial_ack", "partial", format!("abandoned Acknowledge call {} on {} naming {} leased deliveries: {} of them were delivered again, {} were not", c.id, sub, total, again, total - again)));
+                }
+            }
+        }
+    }
     // C16.partial_publish: an abandoned Publish is delivered entirely or not at all, on every
     // subscription that was attached throughout.
     if m.drain_end.is_some() && cancel_plan {
